@@ -171,6 +171,8 @@ class SqlImpl(TableImpl):
                 df = pl.read_database(
                     sel.compile(engine, compile_kwargs={"literal_binds": True}),
                     connection=conn,
+                    # a column may start with more nulls than the default inference window holds
+                    infer_schema_length=None,
                     schema_overrides={
                         sql_col.name: schema_overrides[col._uuid]
                         for sql_col, col in zip(sel.selected_columns.values(), final_select, strict=True)
